@@ -515,7 +515,7 @@ pub fn gen_struct(rng: &mut Rng, class: Class) -> Item {
     let big = rng.chance(1, 8);
     let huge = rng.chance(1, 60);
     let n_cp = match class {
-        _ if huge => rng.range(8, 24),
+        _ if huge => rng.range(8, 48),
         _ if big => rng.range(4, 7),
         Class::W2MultiCounterpart => rng.range(2, 4),
         _ => rng.range(1, 3),
@@ -721,12 +721,13 @@ pub fn gen_struct(rng: &mut Rng, class: Class) -> Item {
                     attrs.push(format!("child({})", g));
                 }
             }
-            if rng.chance(1, 400) {
+            if rng.chance(1, 250) {
                 // extreme nesting: [parent(...)] one or two hundred levels deep
-                let depth = rng.range(100, 260);
+                let depth = rng.range(100, 400);
                 let mut inner = "leaf".to_string();
                 for d in 0..depth {
-                    inner = format!("[parent({})] n{}: N{}", inner, d, d);
+                    // now and then a level has a sibling with an instruction of its own
+                    inner = if d % 37 == 5 { format!("[parent({}, [map(z{})] other)] n{}: N{}", inner, d, d, d) } else { format!("[parent({})] n{}: N{}", inner, d, d) };
                 }
                 attrs.push(format!("parent({})", inner));
             }
@@ -1444,8 +1445,49 @@ fn decorate(rng: &mut Rng, item: &mut Item) {
     }
 }
 
+/// A keyword found in the expander's sources that this generator has no rule for (an
+/// instruction or parameter a change may have added), tried in the generic shapes the DSL uses.
+fn unknown_keyword_attr(rng: &mut Rng, kw: &str) -> String {
+    let arg = |rng: &mut Rng| -> String {
+        rng.pick(&["clippy::from_over_into", "unused_qualifications", "EntityDto", "x", "dead_code", "a::b::c", "1", "\"s\"", "T: Clone", "{ 1 }", "a: A", "~.clone()", "rust_2018_idioms", "Foo| bar"]).to_string()
+    };
+    let n = rng.range(0, 4);
+    let args: Vec<String> = (0..n).map(|_| arg(rng)).collect();
+    let body = if n == 0 && rng.chance(1, 2) { kw.to_string() } else { format!("{}({})", kw, args.join(", ")) };
+    if rng.chance(2, 3) {
+        format!("#[o2o({})]", body)
+    } else {
+        format!("#[{}]", body)
+    }
+}
+
 pub fn generate(rng: &mut Rng, corpus: &Corpus, class: Class) -> Item {
     let mut item = generate_undecorated(rng, corpus, class);
+    if !corpus.dict_keywords.is_empty() && item.raw.is_none() && rng.chance(1, 4) {
+        let n = rng.range(1, 2);
+        for _ in 0..n {
+            let kw = rng.pick(&corpus.dict_keywords).clone();
+            let a = unknown_keyword_attr(rng, &kw);
+            if item.members.is_empty() || rng.chance(2, 3) {
+                let pos = rng.below(item.type_attrs.len() as u64 + 1) as usize;
+                item.type_attrs.insert(pos, a);
+            } else {
+                let mi = rng.below(item.members.len() as u64) as usize;
+                item.members[mi].attrs.push(a);
+            }
+        }
+        // ... or as a parameter of a trait instruction
+        if rng.chance(1, 3) {
+            let kw = rng.pick(&corpus.dict_keywords).clone();
+            for a in item.type_attrs.iter_mut() {
+                if a.ends_with(")]") && (a.contains("map(") || a.contains("into(") || a.contains("from(")) && !a.contains('|') && rng.chance(1, 2) {
+                    let cut = a.len() - 2;
+                    *a = format!("{}| {}(x, y))]", &a[..cut], kw);
+                    break;
+                }
+            }
+        }
+    }
     if rng.chance(1, 3) {
         decorate(rng, &mut item);
     }
